@@ -1,6 +1,11 @@
 HOOK_COMMITS = []
-IMPLEMENTED = {"C01", "C02", "C03", "C04", "C05", "C06", "C07", "C08", "C09", "C10", "C11", "C12", "C13", "C14", "C15", "C18", "C20"}
+IMPLEMENTED = {"C01", "C02", "C03", "C04", "C05", "C06", "C07", "C08", "C09", "C10", "C11", "C12", "C13", "C14", "C15", "C17", "C18", "C20"}
 TABLE = {
+ "C17": {
+  "technique": "model-based property testing of handle sequences in three differently-configured crates (configuration differential) + multi-thread stress with an exact-count oracle",
+  "text": "Random and enumerated sequences of clone / to_dyn / borrow / borrow_mut / drop over all six Reference variants are interpreted against a one-shared-cell model with a drop counter; the same interpreter source is compiled into the harness, into a downstream crate built with features named alloc/std and into the same crate built without them, and all three must agree with the model (to_dyn! must not panic for the variants it lists). 2..8 threads perform read-yield-write increments under borrow_mut() of per-thread References over one Arc/static lock and the final count must be exact; the static_* macros are checked for aliasing per call site.",
+  "note": "The OS owns the schedule, so the stress part is a probabilistic lost-update detector; std's locks are trusted. Raw-pointer variants point at live heap objects owned by the harness.",
+ },
  "C15": {
   "technique": "stateful (model-based) property testing: generated operation histories interpreted against the real objects and an explicit model, invariant checked after every step",
   "text": "Histories of up to 40 operations (set succeeding/failing, follow, stop_following, update with succeeding/failing forwarding, followed-getter output changes, clock advance/error, set_delta, set_time) run against a recording settable, a ConstantGetter, a TimeGetterFromGetter and a GetterFromHistory built with each of its four constructors over an echo history; after every operation the last request, the exact forwarded sequence, return values, the constant getter, the adapter value (history(now+offset) restamped now) and the time getter are compared with the model.",
